@@ -13,7 +13,7 @@ def nontrivial(r):
 
 def run(chk):
     n = 200 if chk.tier == "quick" else 2500
-    HC.run_prop(chk, "C17", ["C17", "C17:sge", "C17:lsf", "C17"], n, RULE, ASSUME, nontrivial)
+    HC.run_prop(chk, "C17", ["C17", "C17:sge", "C17:lsf", "C17:local"], n, RULE, ASSUME, nontrivial)
 
 
 def replay(chk, data):
